@@ -133,7 +133,7 @@ prop("C16", [
     S(CLIENT, "^TestC16$", q=20000, t=500000, shards=16),
 ], ["struct audit_status field offsets are written from the kernel header by hand; mask/feature bits and message types come from the header snapshot",
     "fields only partly covered by an odd-length buffer are not asserted"],
-   nontrivial_classes=["set-nonzero", "set-after-unacknowledged-set", "get", "wire-too-short", "wire-decoded"] + ["set-" + s for s in
+   nontrivial_classes=["set-nonzero", "set-after-unacknowledged-set", "get", "get-repeated-on-one-client", "wire-too-short", "wire-decoded"] + ["set-" + s for s in
                        ["SetPID", "SetRateLimit", "SetBacklogLimit", "SetEnabled", "SetImmutable", "SetFailure", "SetBacklogWaitTime"]])
 
 prop("C17", [
@@ -157,7 +157,7 @@ prop("C18", [
 ], ["needs AF_NETLINK sockets (the check is undecided without them)",
     "only side-effect-free requests: NETLINK_ROUTE message types above RTM_MAX with the REQUEST flag, which the kernel refuses with EOPNOTSUPP and echoes",
     "a zero-length datagram cannot be sent between netlink sockets (ENODATA); it is covered at parser level only"],
-   nontrivial_classes=["send-echoed", "foreign-header-sized-refused", "foreign-short-refused", "parser-short", "parser-ok", "concurrent-batch", "concurrent-batch-with-failing-sends", "client-port-id-differs-from-process-id"])
+   nontrivial_classes=["send-echoed", "send-reply-fills-read-buffer-exactly", "foreign-header-sized-refused", "foreign-short-refused", "parser-short", "parser-ok", "concurrent-batch", "concurrent-batch-with-failing-sends", "client-port-id-differs-from-process-id"])
 
 COAL = "props/coalesce"
 
